@@ -235,13 +235,13 @@ NA_DEFAULT = ("contracts for the functions this property depends on are not yet 
               "not claimed until its core obligations are generated and discharged")
 # Round 5: what later rounds added to, or corrected in, the notes above (appended to level_note).
 UPDATES = {
-    "C01": "Quick tier: validateAnnotatedValue's acceptance of a VarUInt-length value is proved by the thorough tier only. Round 5: the binary WriteDecimal's one-byte form is proved to be positive zero with exponent zero only (a negative zero keeps its sign octet, "
+    "C01": "Quick tier: validateAnnotatedValue's acceptance of a VarUInt-length value is proved for one-byte length fields; the general clause by the thorough tier only. Round 5: the binary WriteDecimal's one-byte form is proved to be positive zero with exponent zero only (a negative zero keeps its sign octet, "
            "the declared length is exponent plus coefficient); the text writer spells int64/uint64/big.Int as the decimal text of the same integer "
            "(strconv/fmt \"%d\" share one uninterpreted text function with big.Int.String); computeOffset parses hour and minute from the right characters.",
     "C02": "Round 5: readString appends only legal raw characters (no raw line break, control character, quote or backslash) and "
            "isProhibitedControlChar is the grammar's table (HT, VT, FF allowed); textReader.onSymbol (keywords are values only when unquoted) and "
            "onTimestamp are proved; skipBlobHelper skips a blob as a lob (no comments).",
-    "C03": "Quick tier: one clause (a wrapper whose enclosed value has a VarUInt length field of the right size is accepted) is proved by the thorough tier only, it needs 25 s of one solver on an idle machine. Round 5: ReadAnnotations is proved, no longer assumed: the annotation IDs are read inside the wrapper only, each bounded by what is left of "
+    "C03": "Quick tier: that a wrapper whose enclosed value has a VarUInt length field of the right size is accepted is proved for one-byte length fields (values and sorted structs up to 127 bytes); the clause for length fields of up to ten bytes is proved by the thorough tier only (it needs 25 s of one solver on an idle machine). Round 5: ReadAnnotations is proved, no longer assumed: the annotation IDs are read inside the wrapper only, each bounded by what is left of "
            "annot_length, and the length handed to the re-validation is computed without wrap-around (this found and repaired a crash, DESIGN.md 0.3); "
            "only readLocalSymbolTable remains a thin assumed contract on this path.",
     "C04": "Round 5: annot_length is fed from the sum of varUintLen of the IDs, the IDs follow as VarUInts; every binary value method closes the wrapper "
